@@ -381,6 +381,83 @@ theorem names_enc_after_set (kvs : List (String × Json)) (hu hp : Option String
         | _ => simp [hul] at hsu
     | _ => simp [hpl] at hsp
 
+/-- the merged shared header names `name` when the protected header (as an object: given so, or decoded from its text)
+    and the shared unprotected header say so, protected first -/
+theorem names_enc_core (kvs p : List (String × Json)) (hu hp : Option String) (name : String)
+    (hn : (match hp with | some x => some x | none => hu) = some name)
+    (hpo : protectedObj (.obj kvs) = some p) (hpe : optStr (.obj p) "enc" = some hp)
+    (hsu : subEnc kvs "unprotected" = some hu) : NamesEnc (.obj kvs) name := by
+  simp only [subEnc] at hsu
+  simp only [optStr] at hpe
+  simp only [NamesEnc, jweHdr, hpo, get?, Option.bind_none]
+  cases hul : lookup "unprotected" kvs with
+  | none =>
+    simp only [hul, Option.some.injEq] at hsu
+    subst hsu
+    cases hpl : lookup "enc" p with
+    | none => simp [hpl] at hpe; subst hpe; simp at hn
+    | some ev =>
+      cases ev with
+      | str sv =>
+        simp only [hpl, Option.some.injEq] at hpe
+        subst hpe
+        simp only [Option.some.injEq] at hn
+        subst hn
+        exact ⟨_, rfl, by simp [getStr?, get?, hpl, strVal?]⟩
+      | _ => simp [hpl] at hpe
+  | some uv =>
+    cases uv with
+    | obj u =>
+      simp only [hul, optStr] at hsu
+      cases hpl : lookup "enc" p with
+      | none =>
+        simp only [hpl, Option.some.injEq] at hpe
+        subst hpe
+        simp only at hn
+        subst hn
+        cases hue : lookup "enc" u with
+        | none => simp [hue] at hsu
+        | some ev =>
+          cases ev with
+          | str sv =>
+            simp only [hue, Option.some.injEq] at hsu
+            exact ⟨_, rfl, by simp [getStr?, get?, lookup_updateMissingKV, hpl, hue, strVal?, hsu]⟩
+          | _ => simp [hue] at hsu
+      | some ev =>
+        cases ev with
+        | str sv =>
+          simp only [hpl, Option.some.injEq] at hpe
+          subst hpe
+          simp only [Option.some.injEq] at hn
+          subst hn
+          exact ⟨_, rfl, by simp [getStr?, get?, lookup_updateMissingKV, hpl, strVal?]⟩
+        | _ => simp [hpl] at hpe
+    | _ => simp [hul] at hsu
+
+/-- an inferred `enc` recorded while the protected header is already ENCODED goes to the shared unprotected header;
+    the merged header then names it, provided the encoded header does not name one itself -/
+theorem names_enc_after_set_str (kvs d : List (String × Json)) (t n : String) (j0 : Json)
+    (hpl : lookup "protected" kvs = some (.str t)) (hd : B64.decLoad (some (.str t)) = some (.obj d))
+    (hpe : lookup "enc" d = none)
+    (hs : jweHdrSetNew (.obj kvs) "enc" (some (.str n)) = some j0) : NamesEnc j0 n := by
+  simp only [jweHdrSetNew, hpl] at hs
+  cases hul : lookup "unprotected" kvs with
+  | none =>
+    simp only [hul, Bool.not_true, Bool.or_self, Bool.false_eq_true, if_false, Option.some.injEq] at hs
+    subst hs
+    refine ⟨.obj (updateMissingKV d [("enc", .str n)]), ?_, ?_⟩
+    · simp [jweHdr, protectedObj, get?, lookup_setKV_same, lookup_setKV_other "unprotected" "protected" _ kvs (by decide), hpl, hd]
+    · simp [getStr?, get?, lookup_updateMissingKV, hpe, lookup, strVal?]
+  | some uv =>
+    cases uv with
+    | obj u =>
+      simp only [hul, Bool.not_true, Bool.or_self, Bool.false_eq_true, if_false, Option.some.injEq] at hs
+      subst hs
+      refine ⟨.obj (updateMissingKV d (setKV "enc" (.str n) u)), ?_, ?_⟩
+      · simp [jweHdr, protectedObj, get?, lookup_setKV_same, lookup_setKV_other "unprotected" "protected" _ kvs (by decide), hpl, hd]
+      · simp [getStr?, get?, lookup_updateMissingKV, hpe, lookup_setKV_same, strVal?]
+    | _ => simp [hul] at hs
+
 /-- **C15 (JWE, applied = recorded).**  When `jose_jwe_enc_cek_io` goes ahead with content encryption
     `a`, the merged header of the object it leaves behind names exactly `a`: taken from the protected
     header if that names one, else from the shared unprotected header, else from the CEK's `alg`, else
@@ -388,7 +465,6 @@ theorem names_enc_after_set (kvs : List (String × Json)) (hu hp : Option String
     is only a shared header, into that) before the protected header is encoded. -/
 theorem jwe_enc_applied_is_recorded (jwe cek : Json) (a : AlgRec) (j : Json)
     (h : encCekSetup jwe cek = some (a, j))
-    (hps : ∀ t, jwe.get? "protected" ≠ some (.str t))      -- protected header still an object (or absent); the encoded case: correspondence
     (hload : ∀ j0 p, encodeProtected j0 = some j → j0.get? "protected" = some (.obj p) → LoadDump p) :
     NamesEnc j a.name ∧ findEncr a.name = some a := by
   cases jwe with
@@ -399,15 +475,21 @@ theorem jwe_enc_applied_is_recorded (jwe cek : Json) (a : AlgRec) (j : Json)
       simp only [Option.bind_eq_some_iff] at h
       obtain ⟨⟨a0, j0⟩, hr, hrest⟩ := h
       have hsu' : subEnc kvs "unprotected" = some hu := hsu
-      have hsp' : subEnc kvs "protected" = some hp := by
-        simp only [subEnc]
+      -- the protected header as an object (given so, absent, or decoded from its text) and what it says about `enc`
+      have hcore : ∃ p, protectedObj (.obj kvs) = some p ∧ optStr (.obj p) "enc" = some hp := by
         cases hpl : lookup "protected" kvs with
-        | none => simpa [hpl] using hsp
+        | none => exact ⟨[], by simp [protectedObj, get?, hpl], by simpa [hpl, optStr, lookup] using hsp⟩
         | some pv =>
           cases pv with
-          | str t => exact absurd (by simp [Json.get?, hpl]) (hps t)
-          | obj o => simpa [hpl] using hsp
+          | obj o => exact ⟨o, by simp [protectedObj, get?, hpl], by simpa [hpl] using hsp⟩
+          | str t =>
+            simp only [hpl, Option.bind_eq_some_iff] at hsp
+            obtain ⟨d, hd, hd2⟩ := hsp
+            cases d with
+            | obj dd => exact ⟨dd, by simp [protectedObj, get?, hpl, hd], by simpa [Json.isObject] using hd2⟩
+            | _ => simp [Json.isObject] at hd2
           | _ => simp [hpl] at hsp
+      obtain ⟨pobj, hpo, hpe⟩ := hcore
       split at hrest
       · simp at hrest
       · simp only [Option.map_eq_some_iff, Prod.mk.injEq] at hrest
@@ -415,6 +497,8 @@ theorem jwe_enc_applied_is_recorded (jwe cek : Json) (a : AlgRec) (j : Json)
         have hne0 : NamesEnc j0 a0.name ∧ findEncr a0.name = some a0 := by
           split at hr
           · -- nothing named: suggestion, recorded
+            rename_i hnone
+            have hpn : hp = none := by cases hp <;> simp_all
             split at hr
             · simp at hr
             · rename_i name _
@@ -423,7 +507,30 @@ theorem jwe_enc_applied_is_recorded (jwe cek : Json) (a : AlgRec) (j : Json)
                 simp only [Option.map_eq_some_iff, Prod.mk.injEq] at hr
                 obtain ⟨jj, hs, rfl, rfl⟩ := hr
                 have hn := findEncr_name name a1 hf
-                exact ⟨names_enc_after_set kvs hu hp a1.name jj hsu' hsp' hs, by rw [hn]; exact hf⟩
+                refine ⟨?_, by rw [hn]; exact hf⟩
+                cases hpl : lookup "protected" kvs with
+                | none =>
+                  have hsp' : subEnc kvs "protected" = some hp := by simpa [subEnc, hpl] using hsp
+                  exact names_enc_after_set kvs hu hp a1.name jj hsu' hsp' hs
+                | some pv =>
+                  cases pv with
+                  | obj o =>
+                    have hsp' : subEnc kvs "protected" = some hp := by simpa [subEnc, hpl] using hsp
+                    exact names_enc_after_set kvs hu hp a1.name jj hsu' hsp' hs
+                  | str t =>
+                    simp only [hpl, Option.bind_eq_some_iff] at hsp
+                    obtain ⟨d, hd, hd2⟩ := hsp
+                    cases d with
+                    | obj dd =>
+                      have hpe2 : lookup "enc" dd = none := by
+                        subst hpn
+                        simp only [Json.isObject, if_true, optStr] at hd2
+                        cases hl : lookup "enc" dd with
+                        | none => rfl
+                        | some ev => cases ev <;> simp [hl] at hd2
+                      exact names_enc_after_set_str kvs dd t a1.name jj hpl hd hpe2 hs
+                    | _ => simp [Json.isObject] at hd2
+                  | _ => simp [hpl] at hsp
               · simp at hr
           · rename_i name hn
             have hr' : Option.map (fun a => (a, Json.obj kvs)) (findEncr name) = some (a0, j0) := by
@@ -436,7 +543,7 @@ theorem jwe_enc_applied_is_recorded (jwe cek : Json) (a : AlgRec) (j : Json)
             simp only [Option.map_eq_some_iff, Prod.mk.injEq] at hr'
             obtain ⟨a1, hf, rfl, rfl⟩ := hr'
             have hnm := findEncr_name name a1 hf
-            exact ⟨by rw [hnm]; exact names_enc_of_sub kvs hu hp name hn hsu' hsp', by rw [hnm]; exact hf⟩
+            exact ⟨by rw [hnm]; exact names_enc_core kvs pobj hu hp name hn hpo hpe hsu', by rw [hnm]; exact hf⟩
         obtain ⟨⟨hdr, hh, hg⟩, hf⟩ := hne0
         refine ⟨⟨hdr, ?_, hg⟩, hf⟩
         rw [jweHdr_after_encode j0 j' he (fun p hp => hload j0 p he hp) none]
@@ -463,10 +570,9 @@ theorem jws_applied_is_recorded_plain (P : Prims) (s jwk : Json) (pay rnd : Bs) 
 
 theorem jwe_enc_applied_is_recorded_plain (jwe cek : Json) (a : AlgRec) (j : Json)
     (h : encCekSetup jwe cek = some (a, j))
-    (hps : ∀ t, jwe.get? "protected" ≠ some (.str t))
     (hplain : ∀ j0 p, encodeProtected j0 = some j → j0.get? "protected" = some (.obj p) → Json.Plain (.obj p)) :
     NamesEnc j a.name ∧ findEncr a.name = some a :=
-  jwe_enc_applied_is_recorded jwe cek a j h hps (fun j0 p h1 h2 => loadDump_of_plain p (hplain j0 p h1 h2))
+  jwe_enc_applied_is_recorded jwe cek a j h (fun j0 p h1 h2 => loadDump_of_plain p (hplain j0 p h1 h2))
 
 /-- non-vacuity -/
 example : jwsHdr (.obj [("protected", .obj [("alg", .str "P")]), ("header", .obj [("alg", .str "H"), ("kid", .int 1)])])
